@@ -245,21 +245,24 @@ func FaultWorker(pm *Params) (*Stats, []*Failure) {
 	st := NewStats()
 	var fails []*Failure
 	var dist []uint64
-	digest := &Digest{}
+	total := &Digest{}
 	transp = newTranspLogger(pm.TranspOut)
 	defer func() { transp.close(); transp = nil }()
 	for i := pm.From; i < pm.Count; i += pm.Stride {
-		fr := &faultRun{pm: pm, st: st, run: i, seed: rng.RunSeed(pm.VerifSeed, "C18", i), digest: digest}
-		digest.Add(fmt.Sprintf("run %d", i))
+		fr := &faultRun{pm: pm, st: st, run: i, seed: rng.RunSeed(pm.VerifSeed, "C18", i), digest: &Digest{}}
 		fr.exec()
 		st.Runs++
+		total.Add(fr.digest.Hex())
+		if pm.PerRun {
+			st.PerRun = append(st.PerRun, fmt.Sprintf("%d %s", i, fr.digest.Hex()))
+		}
 		dist = append(dist, fr.dist...)
 		fails = append(fails, fr.fails...)
 		if len(fails) >= pm.MaxFail {
 			break
 		}
 	}
-	st.Digest = digest.Hex()
+	st.Digest = total.Hex()
 	if pm.DistinctOut != "" {
 		writeHashes(pm.DistinctOut, dist)
 	}
@@ -502,9 +505,8 @@ func (fr *faultRun) exec() {
 			case 1:
 				eo.Switches = map[string]string{}
 			case 2:
-				for k := range eo.Switches {
-					delete(eo.Switches, k)
-					break
+				if ks := SortedKeys(eo.Switches); len(ks) > 0 {
+					delete(eo.Switches, ks[fr2.Intn(len(ks))])
 				}
 			case 3:
 				for _, k := range SortedKeys(eo.Switches) {
@@ -522,13 +524,13 @@ func (fr *faultRun) exec() {
 				eo.AutoVars = nil
 			case 1:
 				eo.AutoVars = map[string]comp.AutoVar{}
-				for k := range o.AutoVars {
+				for _, k := range SortedKeys(o.AutoVars) {
 					p := 7
 					eo.AutoVars[k] = comp.AutoVar{ArgPos: &p}
 				}
 			case 2:
 				eo.AutoVars = map[string]comp.AutoVar{}
-				for k := range o.AutoVars {
+				for _, k := range SortedKeys(o.AutoVars) {
 					p := -1 - fr2.Intn(3)
 					eo.AutoVars[k] = comp.AutoVar{ArgPos: &p}
 				}
